@@ -5,7 +5,8 @@
 namespace c09 {
 using namespace rx;
 
-struct Config { bool serial, mem16, chunk_src; size_t block_extra; uint64_t failmask; };   // block = sizeof(RPFrame) + 1 + block_extra
+struct Config { bool serial, mem16; int chunk_src; size_t block_extra; uint64_t failmask; };   // block = sizeof(RPFrame) + 1 + block_extra
+// chunk_src: 0 octet source, 1 chunk source, k >= 2 chunk source lending a k-octet scratch buffer
 struct Outcome { std::string key, msg; size_t frames = 0, reached_backend = 0, resource_replies = 0, channel_errors = 0, bad_frames = 0; };
 
 inline std::string ser(const Config &c, const Bytes &stream) {
@@ -139,6 +140,7 @@ inline Outcome walk(const Config &cfg, const Bytes &stream) {
         o.reached_backend++;
     }
     if (S.led.outstanding() || S.led.double_free) return fail("leak-at-end", "ledger unbalanced at the end of the stream");
+    if (!S.src.scratch_guard_ok()) return fail("source-scratch-overrun", "octets outside the region the source lent were written");
     return o;
 }
 
